@@ -202,7 +202,8 @@ points after `close()` (`afterClose`, finding F18): once the fault has fired, in
 with the fault, its future raises the fault, it is closed, the cleanups ran exactly once and no transition is left in progress.
 (Hypothesis `hni`, needed for `on_terminated` / `on_close` only: the run did not end in an error of the state machine itself — a
 "cannot transition" or a failed assertion whose own failing transition is then hit by the fault, a second failure, which
-`transition_to` re-raises.  For the other ten hooks there is no hypothesis beyond the fault having fired.) -/
+`transition_to` re-raises.  For the other ten hooks there is no hypothesis beyond the fault having fired.  The hypothesis is always
+true: `C03_fault_never_meets_state_machine_error`; the statement without it is `C03_hook_fault_ends_excepted_unconditional`.) -/
 theorem C03_hook_fault_ends_excepted (P : Prog) (nf : Nat) (plan : Plan) (a : Arm) (evs : List Ev)
     (hm : mainHK a.hk = true) (hac : afterClose a = false)
     (hf : (runX P (initX nf plan (some a)) evs).fired = true)
@@ -255,7 +256,8 @@ other than `on_terminated` / `on_close` need no hypothesis on the final configur
 `on_terminated` / `on_close` raising before `super()` also run in the failing path of `transition_to`, where a second failure
 propagates — alternative `Bad` of the invariant `K`; `Bad` is absorbing, `C03_terminated_with_fault_stays`, so the hypothesis on the
 final configuration excludes it in every earlier one, and in every configuration that is not `Bad` the linking invariant holds,
-`Fault/Proof13 … Proof15`.) -/
+`Fault/Proof13 … Proof15`.  `Bad` is in fact unreachable, `Fault/Proof16 … Proof19`: the statement without the hypothesis on the final
+configuration is `C03_stepper_returns_after_hook_fault_unconditional`.) -/
 def C03_stepper_returns_after_hook_fault : Prop :=
   ∀ (P : Prog) (nf : Nat) (plan : Plan) (a : Arm) (evs : List Ev), mainHK a.hk = true → afterClose a = false →
     (runX P (initX nf plan (some a)) evs).fired = true → ¬ InternalError (runX P (initX nf plan (some a)) evs) →
